@@ -4,6 +4,7 @@ import (
 	"bytes"
 	"encoding/json"
 	"fmt"
+	sigrepo "github.com/lidofinance/dc4bc/client/repositories/signature"
 	"os"
 	"strings"
 	"testing"
@@ -95,6 +96,7 @@ func c01Gen(rt *rapid.T) sPlan {
 		p.Batches = append(p.Batches, sb)
 	}
 	p.Prelude = rapid.IntRange(0, 2).Draw(rt, "prelude") == 0 && !p.Batches[0].ViaAPI
+	p.Interleave = p.Prelude && rapid.Bool().Draw(rt, "interleave")
 	return p
 }
 
@@ -127,9 +129,11 @@ func c01Judge(obs *sigObs) (v *viol, recon int) {
 	ref := map[string][]byte{}   // batch|id -> proposed payload
 	keyOf := map[string][]byte{} // batch -> group key of its round, where it is not the main round
 	all := obs.Batches
-	if obs.Prelude != nil {
-		all = append([]*batchObs{obs.Prelude}, all...)
-		keyOf[obs.Prelude.BatchID] = obs.Prelude.GroupKey
+	earlier := map[string]bool{}
+	for _, eb := range obs.EarlierRound {
+		all = append(all, eb)
+		keyOf[eb.BatchID] = eb.GroupKey
+		earlier[eb.BatchID] = true
 	}
 	for _, b := range all {
 		for _, m := range b.Ref {
@@ -176,7 +180,23 @@ func c01Judge(obs *sigObs) (v *viol, recon int) {
 			}
 		}
 	}
+	// what is stored under a round belongs to that round
 	for ni, store := range obs.NodeSigs {
+		for b := range store {
+			if earlier[b] {
+				return violf("foreign-batch-in-store", "node %d stores batch %q, which was proposed and signed in the earlier round, under the round under test", ni, b), recon
+			}
+		}
+	}
+	for ni, store := range obs.NodeSigsA {
+		for b := range store {
+			if !earlier[b] {
+				return violf("foreign-batch-in-store", "node %d stores batch %q of the round under test under the earlier round", ni, b), recon
+			}
+		}
+	}
+	for ni, store := range append(append([]sigrepo.SignaturesStorage{}, obs.NodeSigs...), obs.NodeSigsA...) {
+		ni := ni % len(obs.NodeSigs)
 		for _, batch := range store {
 			for _, entries := range batch {
 				for _, e := range entries {
